@@ -428,6 +428,22 @@ def opClipfrac (j : Json) : Except String Json := do
     jints [f.num, (f.den : Int)]
   pure (Json.mkObj [("frac", Json.arr res.toArray)])
 
+/-- the mask `vis` of `plot_edges`: each case is `[s1n, s1d, s2n, s2d, e1n, e1d, e2n, e2d]` (start, end as numerators / denominators) -/
+def opVisible (j : Json) : Except String Json := do
+  let cases ← listOf ints (← field j "cases")
+  let res := cases.map fun c =>
+    let q (i : Nat) : Rat := mkRat (c.getD (2 * i) 0) (c.getD (2 * i + 1) 1).toNat
+    Json.bool (Plot.visible (q 0, q 1) (q 2, q 3))
+  pure (Json.mkObj [("vis", Json.arr res.toArray)])
+
+/-- the offsets of the copies `plot_plaquettes` draws: each polygon is a list of corners `[xn, xd, yn, yd]` -/
+def opPolyOffsets (j : Json) : Except String Json := do
+  let polys ← listOf (listOf ints) (← field j "polys")
+  let res := polys.map fun poly =>
+    let pts : List (Rat × Rat) := poly.map fun c => (mkRat (c.getD 0 0) (c.getD 1 1).toNat, mkRat (c.getD 2 0) (c.getD 3 1).toNat)
+    Json.arr ((Plot.polyOffsets pts).map fun (a, b) => jints [a, b]).toArray
+  pure (Json.mkObj [("offsets", Json.arr res.toArray)])
+
 /-- `_broadcast_args` on a batch of (N, subset, argument) cases; the argument is a scalar (`x`) or an array (`xs`) -/
 def opBroadcast (j : Json) : Except String Json := do
   let cases ← listOf (fun c => do
@@ -481,6 +497,8 @@ def dispatch (op : String) (j : Json) : Except String Json :=
   | "intersect" => opIntersect j
   | "broadcast" => opBroadcast j
   | "clipfrac" => opClipfrac j
+  | "visible" => opVisible j
+  | "polyoffsets" => opPolyOffsets j
   | "quasi" => opQuasi j
   | "truncate" => opTruncate j
   | "metric" => opMetric j
